@@ -30,7 +30,7 @@ func init() {
 	sim.Register(&sim.Check{
 		ID: "C48", Title: "Governance settings change only by the owner and stay valid", World: "ledger",
 		Gen: sc48.Gen, Exec: sc48.Exec,
-		Quick: sim.Budget{Runs: 640, WallS: 80}, Thorough: sim.Budget{Runs: 40000, WallS: 1200},
+		Quick: sim.Budget{Runs: 640, WallS: 60}, Thorough: sim.Budget{Runs: 40000, WallS: 1200},
 		LevelText: "seeded search over real update transactions of the miner, storage, faucet, vesting and bridge contracts and the chain globals (update_settings, update_globals, update-settings, vestingsc-update-settings, update-global-config, commit_settings_changes) " +
 			"by the stored owner, the chain owner, the sc.yaml owner after an ownership change and arbitrary accounts; setting maps with valid, unknown, immutable, unparsable, out-of-range and mutually inconsistent entries, several at once, in seeded orders, duplicates, malformed payloads; " +
 			"oracle on the real trie after every transaction of the run (also the base workload's random calls): refused or failed => every settings record byte-identical; non-owner => no setting changes; accepted => input keys known/mutable/parsable, only named settings changed, stored record decodes and passes the contract's own validation",
@@ -51,7 +51,7 @@ func init() {
 	sim.Register(&sim.Check{
 		ID: "C43", Title: "Hard-fork behaviour switches exactly at the fork round", World: "ledger",
 		Gen: sc43.Gen, Exec: sc43.Exec,
-		Quick: sim.Budget{Runs: 640, WallS: 80}, Thorough: sim.Budget{Runs: 40000, WallS: 1200},
+		Quick: sim.Budget{Runs: 640, WallS: 60}, Thorough: sim.Budget{Runs: 40000, WallS: 1200},
 		LevelText: "forks recorded (or not) through the real miner-contract add_hardfork transaction by owner and non-owner callers at seeded rounds (relative to the current round: past, current, next, far; 0, negative, MaxInt64, MinInt64, unparsable), several names per transaction, re-recorded; " +
 			"after every block (and right after every accepted add_hardfork) the real cstate.WithActivation runs in a scratch context on that block for every name of the plan plus the shipped names and a never-recorded one; reference: pre-fork strictly before the recorded round, post-fork from it on, pre-fork when unrecorded; " +
 			"hard-fork records may only change through an accepted owner transaction and must store the requested round",
@@ -67,7 +67,7 @@ func init() {
 	sim.Register(&sim.Check{
 		ID: "C38", Title: "The view-change phase machine follows its schedule", World: "ledger",
 		Gen: sc38.Gen, Exec: sc38.Exec,
-		Quick: sim.Budget{Runs: 480, WallS: 80}, Thorough: sim.Budget{Runs: 30000, WallS: 1200},
+		Quick: sim.Budget{Runs: 480, WallS: 60}, Thorough: sim.Budget{Runs: 30000, WallS: 1200},
 		LevelText: "view change enabled on the real chain; phase lengths shrunk through the contract's configuration (PhaseRounds), membership limits through the real update_settings; miner and sharder agents with the world's real keys register through add_miner / add_sharder, " +
 			"run the real off-chain DKG (chaincore/threshold/bls: MakeDKG, ComputeDKGKeyShare, ValidateShare, signed acknowledgements) and submit contributeMpk / sharder_keep / shareSignsOrShares / wait, the generator closes each round with payFees; " +
 			"faults: silent miners and sharders, duplicates, out-of-phase messages, wrong-size / garbage / foreign-id mpks, too few / null / badly signed / wrong-share entries, non-member senders, missing / foreign / wrong-round / doubled payFees; " +
@@ -83,7 +83,7 @@ func init() {
 	sim.Register(&sim.Check{
 		ID: "C39", Title: "View-change node selection is exact and stake-ordered", World: "ledger",
 		Gen: sc39.Gen, Exec: sc39.Exec,
-		Quick: sim.Budget{Runs: 480, WallS: 80}, Thorough: sim.Budget{Runs: 30000, WallS: 1200},
+		Quick: sim.Budget{Runs: 480, WallS: 60}, Thorough: sim.Budget{Runs: 30000, WallS: 1200},
 		LevelText: "every selection (miners: DKG list -> magic block; sharders: keep list -> magic block) of C38-style histories biased to more candidates than slots and tied stakes (stakes through the real addToDelegatePool); candidates read from the trie before the generator's payFees, result from the magic block after; " +
 			"reference of DESIGN A.6 (size, required previous-set members by stake, everyone above the cut-off in, none below); id-independence among ties by a seed sweep on scratch forks of the state at the selection point (the same payFees re-executed through the contract's real Execute with S different round seeds of the latest finalized magic block, S such that (slots/ties)^S < 1e-12), same seed twice for identical results",
 		LevelNote: "reduce is reached only through real transactions (hook H2 not needed); layouts are those reachable with the genesis set as candidates (limits lowered through update_settings)",
@@ -105,6 +105,9 @@ func init() {
 		GenExtra: genVC(false),
 		Setup: func(w *ledger.World, r *ledger.Runner) {
 			registerOps(r)
+			for k := range agentReg {
+				delete(agentReg, k) // one run at a time per process
+			}
 			agentReg[r] = newAgents(w, r)
 			for i, k := range phaseCfg {
 				minersc.PhaseRounds[minersc.Phase(i)] = r.Plan.CfgInt(k, 2)
